@@ -8,10 +8,10 @@ EXPLANATION = ("Bounded symbolic checking (engine S, REAL mode) of AbstractParam
 FUNCTIONS = ["AbstractParameterAliasable::{aliasParameters(p1,p2),aliasParameters(map),unaliasParameters,copy ctor,operator=,setNamespace,hasIndependentParameter,getIndependentParameters,getFrom}",
              "AliasParameterListener::{parameterValueChanged,rename,clone}", "AbstractParametrizable::{setParameterValue,setParametersValues,matchParametersValues,setNamespace}", "Parameter::{setValue,setConstraint,listeners}", "IntervalConstraint::operator&"]
 BOUNDS = ("objects with 3 parameters (thorough also 4), each unconstrained or closed-interval constrained with symbolic bounds, initial namespace empty or 'N.'; histories: every sequence of 2 calls, every sequence of 3 calls that "
-          "starts with two alias requests (quick) / every sequence of 3 calls (thorough), each followed by a closing probe that moves every alias-group root; updates address independent parameters with values inside "
-          "every constraint of their alias group and different from the current ones; every name map over the names (each name unmapped, mapped to any name incl. itself, or to an unknown name), CPU watchdog 5 s per path")
+          "starts with two alias requests (quick: third parameter unconstrained) / every sequence of 3 calls with the third parameter unconstrained (thorough), each followed by a closing probe that moves every alias-group root; updates address independent parameters with values inside "
+          "every constraint of their alias group and different from the current ones; one link between two parameters with any open/closed interval constraints (symbolic bounds) probed with values on either side of every bound; every name map over the names (each name unmapped, mapped to any name incl. itself, or to an unknown name), CPU watchdog 5 s per path")
 OUTSIDE = ["objects with 5-6 parameters, histories longer than 3 calls", "updates that address an aliased (non-independent) parameter directly, or give an alias group a value outside one of its constraints",
-           "alias requests whose current values lie outside the constraint the two parameters will share", "constraints other than closed intervals (interval semantics: C01)"]
+           "alias requests whose current values lie outside the constraint the two parameters will share", "open or half-open intervals in the history jobs (the single-link job covers every combination of open/closed ends; interval semantics: C01)"]
 ASSUMPTIONS = BASE_ASSUMPTIONS + ["termination is claimed per explored path: a path that runs longer than 5 CPU-seconds inside the bulk-alias call is reported as a violation"]
 LEVEL_TEXT = ("Bounded symbolic checking: every history within the bound is executed on the compiled code with symbolic values; alias tracking, independent set, refusal of double links and cycles, copy/assign/namespace "
               "preservation and termination of the map form are asserted on each path for all reals.")
@@ -19,6 +19,8 @@ LEVEL_NOTE = NOTE
 TECHNIQUE = TECH
 JOBS = [
     Job("histories-2", "C03.cpp", ["HLO=0", "HHI=0", "NPAR=3", "NSTEPS=2", "CKMAX=1"], thorough_defines=["HLO=0", "HHI=0", "NPAR=4", "NSTEPS=2", "CKMAX=1"], budget_s=300, thorough_budget_s=3000, desc="every history of two calls + closing probe"),
-    Job("histories-3", "C03.cpp", ["HLO=0", "HHI=0", "NPAR=3", "NSTEPS=3", "CKMAX=1", "FIRST_ALIAS=2"], thorough_defines=["HLO=0", "HHI=0", "NPAR=3", "NSTEPS=3", "CKMAX=1"], budget_s=400, thorough_budget_s=3400, desc="histories of three calls (quick: the first two are alias requests, so chains, forks, double links and cycles are followed by every third call)"),
+    Job("histories-3", "C03.cpp", ["HLO=0", "HHI=0", "NPAR=3", "NSTEPS=3", "CKMAX=1", "FIRST_ALIAS=2", "UNCONSTRAINED_LAST"], thorough_defines=["HLO=0", "HHI=0", "NPAR=3", "NSTEPS=3", "CKMAX=1", "FIRST_ALIAS=2"], budget_s=500, thorough_budget_s=2500, desc="histories of three calls whose first two are alias requests, so chains, forks, double links and cycles are followed by every third call (quick: the third parameter carries no constraint; thorough: every parameter constrained or not - measured 590 s)"),
+    Job("histories-3-any-order", "C03.cpp", ["HLO=0", "HHI=0", "NPAR=3", "NSTEPS=3", "CKMAX=1", "UNCONSTRAINED_LAST"], tiers=("thorough",), budget_s=3400, desc="every history of three calls (third parameter unconstrained)"),
+    Job("alias-constraints", "C03.cpp", ["HLO=2", "HHI=2", "NPAR=3", "CKMAX=1"], thorough_defines=["HLO=2", "HHI=2", "NPAR=3", "CKMAX=1", "PAIR_DISTINCT_VALUES"], budget_s=200, thorough_budget_s=1500, desc="one link between two parameters, each unconstrained or constrained by an interval with symbolic bounds and every combination of open/closed ends (or both holding the very same constraint object): afterwards the pair accepts exactly the values both original constraints accept (decided for a symbolic test point), an update of the source is refused iff one of the original constraints rejects it and otherwise reaches both, a refused update changes nothing (thorough: distinct starting values; after un-linking each parameter still refuses what its own constraint refused)"),
     Job("alias-map", "C03.cpp", ["HLO=1", "HHI=1", "NPAR=3", "CKMAX=1"], thorough_defines=["HLO=1", "HHI=1", "NPAR=4", "CKMAX=1"], budget_s=300, thorough_budget_s=3000, desc="bulk aliasing from every name map: terminates, performs the links or raises"),
 ]
